@@ -177,6 +177,20 @@ NA = {}
 props = [json.loads(l) for l in open(os.path.join(V, 'properties.jsonl'))]
 checks = []
 na = []
+EXTRA = {
+ 'C02': " Props/C02S: self-similarity stated on SLICES with shifted oracles (multiKnee_slice, multiKnee_slice_cases), as the property words it.",
+ 'C05': " Props/C05S: with segment-determined scores the refined segment has the maximal SCORE (fixed_greedy_score); boundary sizes (k <= 2, k >= n) and nesting for all j <= k.",
+ 'C07': " Props/C07S: mapping after EVERY simplifier equals reduced[I], sorted and for any row permutation unsorted; simplifier_removed_is_computeRemoved for all five.",
+ 'C08': " Props/C08G: the end-to-end theorem instantiated with each of the five bundled detector models (no DetOKLarge hypothesis left; documented minimum t2).",
+ 'C10': " Props/C10S: heights non-increasing and x / y separations restated for the returned INDICES against the input arrays (zKnees_spec).",
+ 'C12': " Props/C12S: no member of a cluster without a hull point occurs in the hull-mode output (>= 2 knees); instantiations with the Layer-N scores smoothScores / cornerTriQ.",
+ 'C15': " Props/C15S: independent piecewise-linear interpolation spec interpQ; global RMSE = MSE against the interpolant; global cost = metric numerator against the interpolant over the divisor n + #segments - 1 (every interior breakpoint counted once per adjoining segment); R2 clipped.",
+ 'C16': " Props/C16S: best-fit R2 = squared Pearson correlation (r2_ols_eq_corrSq); OLS minimises RSS.",
+ 'C18': " Props/C18U: the lower / upper chain is UNIQUE among strictly increasing, strictly turning, supporting chains (hullLower_iff): exactly the brute-force hull chain.",
+ 'C19': " Props/C19S: MCC = +1 (sign) on perfect detection; RMSE = root of MSE for a parametric root.",
+}
+for _k, _v in EXTRA.items():
+    CHECKS[_k]['text'] = CHECKS[_k]['text'] + _v
 for p in props:
     i = p['id']
     if i in CHECKS:
